@@ -369,3 +369,81 @@ def cap(violations, per_mechanism=2, total=12):
             out.append(v)
         seen[v["mechanism"]] = n + 1
     return out
+
+
+# ------------------------------------------ observability of what was explored
+# (DESIGN.md §2.8) sys.monitoring, tool-scoped, repo code objects only.
+
+class Explored:
+    """Per-process record of (a) distinct schedule signatures = hash of the sequence of
+    coroutine starts/resumes/throws of pyairtouch code during one virtual-world run, and
+    (b) source lines of pyairtouch reached at least once."""
+
+    TOOL = 3
+
+    def __init__(self):
+        self.enabled = False
+        self.signatures = set()
+        self.lines = set()
+        self._cur = 0
+        self._codes = {}
+
+    def enable(self):
+        if self.enabled:
+            return
+        mon = sys.monitoring
+        try:
+            mon.use_tool_id(self.TOOL, "vf-explored")
+        except ValueError:
+            return
+        E = mon.events
+        CO_COROUTINE = 0x80
+
+        def sched(code, offset, *rest):
+            k = self._codes.get(code)
+            if k is None:
+                if not code.co_filename.startswith("/repo/pyairtouch") or not (
+                        code.co_flags & CO_COROUTINE):
+                    self._codes[code] = 0
+                    return mon.DISABLE
+                k = self._codes[code] = hash((code.co_qualname, code.co_firstlineno)) or 1
+            elif k == 0:
+                return mon.DISABLE
+            self._cur = hash((self._cur, k, offset))
+            return None
+
+        def line(code, lineno):
+            if code.co_filename.startswith("/repo/pyairtouch"):
+                self.lines.add((code.co_filename[len("/repo/"):], lineno))
+            return mon.DISABLE
+
+        mon.register_callback(self.TOOL, E.PY_START, sched)
+        mon.register_callback(self.TOOL, E.PY_RESUME, sched)
+        def thrown(code, offset, exc):
+            # (PY_THROW cannot be disabled per location)
+            r = sched(code, offset)
+            return None
+
+        mon.register_callback(self.TOOL, E.PY_THROW, thrown)
+        mon.register_callback(self.TOOL, E.LINE, line)
+        mon.set_events(self.TOOL, E.PY_START | E.PY_RESUME | E.PY_THROW | E.LINE)
+        self.enabled = True
+
+    def begin(self):
+        self._cur = 0
+
+    def end(self):
+        if self.enabled and self._cur:
+            self.signatures.add(self._cur)
+
+
+EXPLORED = Explored()
+_orig_run = run
+
+
+def run(main_factory, **kw):  # noqa: F811  (wraps the definition above)
+    EXPLORED.begin()
+    try:
+        return _orig_run(main_factory, **kw)
+    finally:
+        EXPLORED.end()
